@@ -164,9 +164,15 @@ def c02_json(w, ev, slot):
         # "the same document": equal as JSON documents (member order is not
         # part of a JSON object); compared when both parse
         try:
-            same = json.loads(stream.text()) == json.loads(text)
+            want_doc = json.loads(text)
         except ValueError:
-            same = None
+            want_doc = None            # reported below as c02.wellformed
+        same = None
+        if want_doc is not None:
+            try:
+                same = json.loads(stream.text()) == want_doc
+            except ValueError:
+                same = False           # the streamed form is not even JSON
         if same is False:
             w.fail('c02.stream_differs', 'direct_io document differs from '
                    'the returned string: %r vs %r' % (stream.text()[:300],
@@ -189,6 +195,21 @@ def c02_json(w, ev, slot):
             if returned:
                 w.fail('c02.stream_fault_swallowed', 'to_json returned '
                        'normally although the stream failed on write %d' % k)
+            # the next streamed write, to a healthy stream, is a complete
+            # document of its own
+            again = store.SimTextStream()
+            try:
+                t.to_json(gen_by, direct_io=again, **kw)
+                ok = json.loads(again.text()) == json.loads(stream.text())
+            except ValueError:
+                ok = False
+            except Exception as e:  # noqa
+                w.fail('c02.write_raised', 'to_json(direct_io) after a failed '
+                       'streamed write raised %r' % (e,))
+            if not ok:
+                w.fail('c02.stream_differs', 'streamed document written '
+                       'after a failed streamed write differs: %r'
+                       % (again.text()[:300],))
     w.expect_unchanged(slot, 'c02.source_changed', 'to_json')
     try:
         doc = json.loads(text)
@@ -199,6 +220,7 @@ def c02_json(w, ev, slot):
     _cmp_doc(w, doc, ref, meta, 'c02.document', 'json.loads(document)')
     path = None
     routes = [(a >> 1) % 6, (a >> 1) % 6 + 1 if (a >> 4) & 1 else None]
+    plain_path = None
     for route in range(6):
         what = ('Table.from_json(dict)', 'parse_table(StringIO)',
                 'parse_table(list of lines)',
@@ -226,6 +248,7 @@ def c02_json(w, ev, slot):
                 t2 = biom.parse_table(h)
             elif route == 4:
                 path = store.new_path(w, '.json.biom')
+                plain_path = path
                 with open(path, 'w', encoding='utf8', newline='') as f:
                     f.write(text)
                 t2 = biom.load_table(path)
@@ -235,6 +258,9 @@ def c02_json(w, ev, slot):
                 # the file is called
                 path = store.new_path(w, ('.json.biom.gz', '.biom', '.GZ',
                                           '.json.gzip')[(b >> 3) % 4])
+                if (b >> 5) & 1 and plain_path:
+                    # the very path that held the plain text a moment ago
+                    path = plain_path
                 with gzip.open(path, 'wb') as f:
                     f.write(text.encode('utf8'))
                 t2 = biom.load_table(path)
@@ -247,7 +273,27 @@ def c02_json(w, ev, slot):
                    trigger=not (ref.m != 0).any())
             continue
         _cmp_table(w, t2, ref, meta, 'c02.readback', what)
+        _scribble(t2)
     return 'c02:ok'
+
+
+def _scribble(t):
+    """a caller editing, in place, the metadata values of a table it just
+    imported (list values appended to, dict entries overwritten): the
+    imported table is the caller's; later imports must not see the edits"""
+    for axis in ('observation', 'sample'):
+        md = t.metadata(axis=axis)
+        if not md:
+            continue
+        for d in md:
+            for k in list(d):
+                v = d[k]
+                if isinstance(v, list):
+                    v.append('SCRIBBLED')
+                elif isinstance(v, dict):
+                    v['SCRIBBLED'] = 1
+                else:
+                    d[k] = 'SCRIBBLED'
 
 
 # ===================================================================== TSV ==
@@ -304,6 +350,14 @@ def c03_tsv(w, ev, slot):
 
                 def inverse(s):
                     return s.split('; ')
+                if (c >> 1) & 1 and not any(';' in x for v in vals
+                                            for x in v):
+                    # the processing function the library itself offers for
+                    # this (`biom convert --process-obs-metadata`)
+                    from biom.cli.table_converter import \
+                        observation_metadata_types as _omt
+                    inverse = _omt[('sc_separated', 'taxonomy')[(c >> 2) & 1]]
+                    w.stats['c03.library_inverse'] += 1
             elif all(isinstance(v, str) for v in vals):
                 texts = list(vals)
                 ok = True
@@ -359,6 +413,7 @@ def c03_tsv(w, ev, slot):
     proc = inverse if cat is not None else (lambda x: x)
     which = b % len(exports)
     label, text = exports[which]
+    plain_path = None
     for route in range(5):
         what = '%s -> %s' % (label, (
             'from_tsv(list of lines)', 'from_tsv(StringIO)',
@@ -398,6 +453,7 @@ def c03_tsv(w, ev, slot):
                 os.unlink(path)
             elif route == 3:
                 path = store.new_path(w, '.tsv')
+                plain_path = path
                 with open(path, 'w', encoding='utf8', newline='\n') as f:
                     f.write(text)
                 t2 = biom.load_table(path)
@@ -405,6 +461,9 @@ def c03_tsv(w, ev, slot):
             else:
                 path = store.new_path(w, ('.tsv.gz', '.txt', '.GZ',
                                           '.tsv.gzip')[(b >> 5) % 4])
+                if (b >> 7) & 1 and plain_path:
+                    # the very path that held the plain text a moment ago
+                    path = plain_path
                 with gzip.open(path, 'wb') as f:
                     f.write(text.encode('utf8'))
                 t2 = biom.load_table(path)
@@ -417,6 +476,7 @@ def c03_tsv(w, ev, slot):
             w.fail('c03.read_raised', '%s raised %r' % (what, e))
             continue
         _cmp_tsv(w, t2, ref, cat, name, what)
+        _scribble(t2)
     if (a >> 6) & 1 and ref.type is not None:
         _tsv_via_convert(w, slot, ref, cat, name, t)
     return 'c03:ok'
@@ -489,3 +549,4 @@ def _tsv_via_convert(w, slot, ref, cat, name, t):
             os.unlink(p)
     w.stats['c03.via_convert'] += 1
     _cmp_tsv(w, t2, ref, cat, name, 'biom convert --to-tsv | biom convert')
+    _scribble(t2)
